@@ -76,8 +76,16 @@ def run(run):
                 sl = [ix for ix in ixs[:nsl]]
                 if np.prod([net.dim(ix) for ix in sl] + [1]) > 18:
                     sl = sl[:1]
-                scales = [rng.choice([-100, -100, -37, -3, 0, 5, 42, 100, 100]) if rng.random() < 0.8 else rng.randint(-100, 100)
-                          for _ in range(net.N)]
+                pat = rng.random()
+                if pat < 0.2:
+                    scales = [-100] * net.N            # total far below the smallest double
+                elif pat < 0.4:
+                    scales = [100] * net.N             # total far above the largest double
+                elif pat < 0.5:
+                    scales = [(-100 if t % 2 else 100) for t in range(net.N)]
+                else:
+                    scales = [rng.choice([-100, -100, -37, -3, 0, 5, 42, 100, 100]) if rng.random() < 0.8 else rng.randint(-100, 100)
+                              for _ in range(net.N)]
                 I = pos_arrays(net, rng)
                 with np.errstate(all="ignore"):
                     arrays = [a * 10.0 ** s for a, s in zip(I, scales)]
@@ -108,9 +116,12 @@ def run(run):
                     mm = np.asarray(mm, dtype=np.float64)
                     ok = np.all(np.isfinite(mm)) and math.isfinite(float(ee))
                     if ok:
-                        with np.errstate(all="ignore"):
-                            val = mm * 10.0 ** (float(ee) - S)
-                        ok = val.shape == ref.shape and np.allclose(val, ref, rtol=1e-9, atol=0)
+                        try:
+                            with np.errstate(all="ignore"):
+                                val = mm * 10.0 ** (float(ee) - S)
+                            ok = val.shape == ref.shape and np.allclose(val, ref, rtol=1e-9, atol=0)
+                        except OverflowError:
+                            ok = False      # the exponent is hundreds of decades away from the exact result
                     if not ok:
                         run.violation(f"{nm}(strip_exponent=True): mantissa*10^exponent differs from the exact result or is not finite: "
                                       f"eq={net.eq()} dims={net.dims} ssa={ssa} sliced={sl} scales={scales} exponent={ee} "
